@@ -2,7 +2,9 @@ import Driver.Common
 import FranzVerif.Model.C12
 import FranzVerif.Spec.C12
 import Driver.ShareHist
-/-! Sub-driver C12 (pure half). Input lines `op | impl`; output `model | verdict | nontrivial`.
+/-! Sub-driver C12. Input lines `op | impl`; output `model | verdict | nontrivial`.
+`share …` lines (protocol half) go to the history monitor (`Driver.ShareHist`); the pure-half ops below carry the
+kind token `ackr` in front (`ackr build …`).
 Entry token `off,status,src,epoch,id`; range token `first,last,src,epoch,type`.
 
   build <entry>* / <gap>*   | <range>* r<0|1>     model: `buildAckRanges`; Spec: `specBuild` on the implementation's
